@@ -908,7 +908,7 @@ func TestVerifNhsim(t *testing.T) {
 		rec.keep = func(ev string) bool { return ev != "Enter" && ev != "Exit" && ev != "SMNew" }
 	case "member":
 		rec.keep = func(ev string) bool {
-			return ev == "Init" || ev == "CC" || ev == "Members" || ev == "Panic"
+			return ev == "Init" || ev == "CC" || ev == "Members" || ev == "Panic" || ev == "EmptyImage"
 		}
 	case "hang":
 		rec.keep = func(ev string) bool {
